@@ -9,3 +9,116 @@ def atomic(local, sc, cfg, hev, wire):
 
 def flush(local, sc, cfg, hev, wire):
     return
+
+
+def deliver(local, sc, cfg, hev, wire):
+    return
+
+
+def barrier(local, sc, cfg, hev, wire):
+    """C02 acceptor: every barrier epoch of the run, projected to the labels of YgmVerif.Barrier, must be
+    accepted by the model's `step`; contributed / consumed count pairs must equal the model's."""
+    n = cfg.n
+    # pass 1: counters before every event, barrier ordinals, callback windows
+    sent, recvd, busy, cbs, bars = [0] * n, [0] * n, [0] * n, [0] * n, [0] * n
+    snap = {}            # barrier ordinal -> (index in hev of first bar+, counters there)
+    ordinal = []         # per event: barrier ordinal of rank at that event (for bar/brc events)
+    inbar = [False] * n
+    cbwin = {}           # index of cb+ -> (k, j)
+    open_cb = [None] * n
+    depth_at_cb = [0] * n
+    for i, ev in enumerate(hev):
+        r, k = ev.r, ev.kind
+        ordinal.append(bars[r] - (1 if inbar[r] else 0))
+        if k == "k:bar+":
+            e = bars[r]
+            if e not in snap:
+                snap[e] = (i, list(sent), list(recvd), list(busy), list(cbs))
+            ordinal[-1] = e
+            bars[r] += 1
+            inbar[r] = True
+        elif k == "k:bar-":
+            inbar[r] = False
+        elif k in ("k:as+", "k:qm"):
+            sent[r] += 1
+            if open_cb[r] is not None and busy[r] == depth_at_cb[r]:
+                cbwin[open_cb[r]][0] += 1
+        elif k == "k:ex+":
+            busy[r] += 1
+        elif k == "k:ex-":
+            busy[r] -= 1
+            recvd[r] += 1
+        elif k == "k:rcb":
+            cbs[r] += 1
+            if open_cb[r] is not None and busy[r] == depth_at_cb[r]:
+                cbwin[open_cb[r]][1] += 1
+        elif k == "k:cb+":
+            cbs[r] -= 1
+            open_cb[r] = i
+            depth_at_cb[r] = busy[r]
+            cbwin[i] = [0, 0]
+        elif k == "k:cb-":
+            open_cb[r] = None
+    nb = min(bars) if bars else 0
+    lines, origin = [], []
+    for e in range(nb):
+        i0, s0, r0, b0, c0 = snap[e]
+        lines.append("init %d %s %s %s %s" % (n, ",".join(map(str, s0)), ",".join(map(str, r0)), ",".join(map(str, b0)), ",".join(map(str, c0))))
+        origin.append((e, None))
+        exited = 0
+        open_cb = [None] * n
+        busy = list(b0)
+        depth_at_cb = [0] * n
+        for i in range(i0, len(hev)):
+            ev = hev[i]
+            r, k = ev.r, ev.kind
+            lab = None
+            if k in ("k:as+", "k:qm"):
+                if not (open_cb[r] is not None and busy[r] == depth_at_cb[r]):
+                    lab = "issue %d" % r
+            elif k == "k:ex+":
+                busy[r] += 1
+                lab = "start %d" % r
+            elif k == "k:ex-":
+                busy[r] -= 1
+                lab = "finish %d" % r
+            elif k == "k:rcb":
+                if not (open_cb[r] is not None and busy[r] == depth_at_cb[r]):
+                    lab = "regcb %d" % r
+            elif k == "k:cb+":
+                open_cb[r] = i
+                depth_at_cb[r] = busy[r]
+                lab = "runcb %d %d %d" % (r, cbwin[i][0], cbwin[i][1])
+            elif k == "k:cb-":
+                open_cb[r] = None
+            elif ordinal[i] == e:
+                if k == "k:bar+":
+                    lab = "enter %d" % r
+                elif k == "k:brc+":
+                    lab = "contribute %d %s %s" % (r, ev.f[0], ev.f[1])
+                elif k == "k:brc-":
+                    lab = "result %d %s %s" % (r, ev.f[0], ev.f[1])
+                elif k == "k:bar-":
+                    lab = "exit %d" % r
+                    exited += 1
+            if lab:
+                lines.append(lab)
+                origin.append((e, i))
+            if exited == n:
+                break
+    if not lines:
+        return
+    outs = C.model("barrier", lines)
+    local.count("barrier_labels", len(lines))
+    local.count("barrier_epochs", nb)
+    for (line, o, (e, i)) in zip(lines, outs, origin):
+        if not o.startswith("ok"):
+            ev = hev[i] if i is not None else None
+            local.corr_failures.append({"relation": "real event history accepted by YgmVerif.Barrier.step (C02 acceptor)",
+                                        "what": f"barrier #{e}: label '{line}' -> {o}" + (f" at event {ev!r}" if ev else ""),
+                                        "case": {"scenario": sc.to_json(), "config": cfg.to_json()}})
+            break
+
+
+def bytes_(local, sc, cfg, hev, wire):
+    return
